@@ -164,13 +164,23 @@ def parseOp (ts : List String) : Option Op :=
 
 def step (s : St) (ts : List String) (impl : String) : St × String × String :=
   match ts with
-  | ["new", n, how, order] =>
+  | "new" :: n :: how :: order :: fds =>
+    -- descriptor numbers of main and ref; without them: "what pipe(2) returned", some number that is not -1
+    let fdnums : Option (Int × Int) := match fds with
+      | [] => some (3, 3)
+      | [a, b] => match a.toNat?, b.toNat? with
+        | some a, some b => if a = b ∨ a ≥ 600 ∨ b ≥ 600 then none else some ((a : Int), (b : Int))
+        | _, _ => none
+      | _ => none
+    match fdnums with
+    | none => ({}, "bad-op", "")
+    | some (fdm, fdr) =>
     match n.toNat?, (how ∈ ["func", "fd", "both", "none"] : Bool), (order ∈ ["late", "early"] : Bool) with
     | some n, true, true =>
       let f := how = "func" ∨ how = "both"
       let d := how = "fd" ∨ how = "both"
       let early := order = "early"
-      match TermBuf.run TermBuf.init (buildOps n f d early), TermBuf.run TermBuf.init (buildOps 0 f d early) with
+      match TermBuf.run TermBuf.init (buildOps n f d early fdm), TermBuf.run TermBuf.init (buildOps 0 f d early fdr) with
       | .ok m, .ok r =>
         let s0 : St := { alive := true, main := m, ref := r, useFunc := f, useFd := d, n := n }
         let (s1, v) := spec s0 (if early then .newEarly else .newLate) impl
